@@ -37,7 +37,7 @@ static int read_octal(const char *str, int digits, sqfs_u64 *out)
 static int read_binary(const char *str, int digits, sqfs_u64 *out)
 {
 	sqfs_u64 x, ov, result = 0;
-	bool first = true;
+	bool first = true, neg = false;
 
 	while (digits > 0) {
 		x = *((const unsigned char *)str++);
@@ -47,6 +47,7 @@ static int read_binary(const char *str, int digits, sqfs_u64 *out)
 			first = false;
 			if (x == 0xFF) {
 				result = 0xFFFFFFFFFFFFFFFFUL;
+				neg = true;
 			} else {
 				x &= 0x7F;
 				result = 0;
@@ -57,11 +58,14 @@ static int read_binary(const char *str, int digits, sqfs_u64 *out)
 
 		ov = (result >> 56) & 0xFF;
 
-		if (ov != 0 && ov != 0xFF)
+		if (ov != (neg ? 0xFF : 0))
 			goto fail_ov;
 
 		result = (result << 8) | x;
 	}
+
+	if (neg && !(result >> 63))
+		goto fail_ov;
 
 	*out = result;
 	return 0;
